@@ -157,7 +157,7 @@ for t, r in (("f64", "q<-342 / q>308"), ("f32", "q<-65 / q>38")):
       "compute_float::<%s>(q,w) for ALL (i32,u64): no panic/overflow/OOB/debug_assert failure; definite => fields in range, finite or +inf, never NaN; w==0 or %s => +0.0 / +inf; declined => normalised, exponent formula, never inside q in [-27,55]" % (t, r),
       LEM, features=LEM_CFG, timeout=900)
     K("c11_compute_float_tail_" + t, "lemire", C11L,
-      "compute_float::<%s> with compute_product_approx replaced by a symbolic product P (hi>=2^62): for all q in table range, w!=0: definite => packed result is RNE of some value in [P, P+2^64)*2^(floor(log2 10^q)-lz-63); declined => top 64 bits of P with matching exponent" % t,
+      "compute_float::<%s> with compute_product_approx replaced by a symbolic product P (hi>=2^62): for all q in table range, w!=0: the product is requested exactly once for (q, normalised w) with at least ms+3 bits of precision; definite => packed result is RNE of some value in [P, P+2^64)*2^(floor(log2 10^q)-lz-63); declined => top 64 bits of P with matching exponent" % t,
       LEM, features=LEM_CFG, zflags=("stubbing",), timeout=900)
     K("c11_compute_float_exact_" + t, "lemire", C11L,
       "compute_float::<%s>, q in [0,27] (exact product, even low word): never declines; packed result == RNE(w*10^q) incl. ties-to-even inside the window (exact ties excluded above the window by lemma L-TIE)" % t,
@@ -193,6 +193,7 @@ K("c13_pop", "stackvec", C13P, "pop on every wf vector: returns last element, pr
 K("c13_try_extend_small", "stackvec", C13P, "try_extend at every pre-length 0..=62 with a slice of 0..=4 symbolic limbs: appended in order, prefix unchanged; sum > 62 => None, unchanged", [SV + "try_extend", SV + "extend_unchecked", SV + "set_len"], strength="bounded", bound="slice length <= 4 (pre-length unbounded up to capacity)", features=NOALLOC)
 K("c13_try_from_small", "stackvec", C13P, "try_from(slice) for slices of 0..=4 limbs is the copy of the slice", [SV + "try_from"], strength="bounded", bound="slice length <= 4", features=NOALLOC)
 K("c13_try_resize_small", "stackvec", C13P, "try_resize at every pre-length to any length: > 62 => None unchanged; shrink => prefix; grow (<= 4 new elements in this harness) => prefix + fill", [SV + "try_resize", SV + "resize_unchecked", SV + "truncate_unchecked"], strength="bounded", bound="growth <= 4 elements per call (any pre-length, any shrink)", features=NOALLOC)
+K("c13_try_resize_concrete", "stackvec", C13P, "try_resize between concrete lengths (0->3, 2->4, 4->1, 60->62), symbolic contents and fill value: prefix kept, new elements equal the fill value", [SV + "try_resize", SV + "resize_unchecked"], strength="bounded", bound="length pairs (0,3),(2,4),(4,1),(60,62)", features=NOALLOC, timeout=900)
 K("c13_normalize", "stackvec", C13P, "normalize / is_normalized on every wf vector (any length up to 62, at most 4 trailing zero limbs): strips exactly the trailing zero limbs", [SV + "normalize", SV + "is_normalized", "bigint::normalize", "bigint::is_normalized"], strength="bounded", bound="<= 4 trailing zero limbs per call, any length up to capacity", features=NOALLOC)
 K("c13_from_u64", "stackvec", C13P, "from_u64(x): empty for 0, single limb otherwise", [SV + "from_u64", "bigint::from_u64"], features=NOALLOC)
 K("c13_eq_cmp_short", "stackvec", C13P, "eq == sequence equality; cmp == length-first then most-significant-limb-first; for normalised vectors == numeric order", [SV + "eq", SV + "cmp", SV + "partial_cmp", "bigint::compare"], strength="bounded", bound="vectors of <= 3 limbs", features=NOALLOC)
@@ -208,6 +209,7 @@ K("c12_u64_to_hi64", "bigint", C12P, "u64_to_hi64_1/2: top 64 bits of the 64/128
 K("c12_small_add_from", "bigint", C12P, "small_add_from(x,y,start): value' = value + y*2^(64 start), start <= len", [BI + "small_add_from", BI + "small_add"], strength="bounded", bound="x <= 3 limbs", features=BOTH_VEC)
 K("c12_small_mul", "bigint", C12P, "small_mul(x,y): value' = value*y (scalar_mul replaced by its contract over an uninterpreted product)", [BI + "small_mul"], strength="bounded", bound="x <= 3 limbs", features=BOTH_VEC, zflags=("stubbing",), timeout=900)
 K("c12_capacity_edge_small_ops", "bigint", C12P + ["C08", "C13"], "at 62 limbs a carry out of small_add/small_mul/shl_bits returns None (no write outside the buffer); at 61 limbs it is pushed", [BI + "small_add", BI + "small_mul", BI + "shl_bits"], strength="capacity", bound="lengths 61 and 62, all limbs 2^64-1", features=["default", "compact"], timeout=1200, tier="thorough")
+K("c12_capacity_edge_small_mul", "bigint", C12P + ["C08", "C13"], "at exactly 62 limbs a carry out of small_mul / small_add returns None, length unchanged (quick variant of c12_capacity_edge_small_ops)", [BI + "small_mul", BI + "small_add"], strength="capacity", bound="length 62, all limbs 2^64-1", features=["default", "compact"], timeout=900)
 for lx in range(4):
     K("c12_large_add_from_x%d" % lx, "bigint", C12P, "large_add_from(x,y,start): value' = value + val(y)*2^(64 start)", [BI + "large_add_from", BI + "large_add"], strength="bounded", bound="x of %d limbs, y <= 3 limbs, start <= 2" % lx, features=BOTH_VEC, timeout=900, tier="quick" if lx in (1, 2) else "thorough")
 for lx, ly in ((1, 1), (1, 2), (2, 1), (2, 2)):
@@ -315,6 +317,8 @@ for t in ("f64", "f32"):
 # c11_bell_truncation_error_fn (truncation_error(w) == min(8*floor((2^64-1)/w), 2^28-1)): divider-vs-multiplier relation, not discharged by cadical / kissat / z3 / cvc5 within 400 s each: NOT registered
 K("c11_bell_truncation_propagates", "bellerophon", C11L + ["C06"], "bellerophon with truncation_error a ghost returning T: the bound handed to error_is_accurate >= T", ["bellerophon::bellerophon"], features=BELL_CFG, zflags=("stubbing",), timeout=900)
 # (c11_bell_structure_*: full structural contract of bellerophon() with mul / error_is_accurate as recorders did not discharge within 25 min even at 4 concrete exponents: NOT registered)
+for t in ("f64", "f32"):
+    K("c11_bell_accept_" + t, "bellerophon", C11L + ["C05", "C07"], "bellerophon::<%s>, ALL Numbers, mul arbitrary, error_is_accurate a recorder with symbolic verdict: estimate normalised with exponent >= -64; rejected => that estimate un-rounded, biased invalid; accepted => +0.0 at exponent -64 (value < 2^-bias), else packed result == RNE of the estimate; no estimate consulted => only +0.0 / +inf" % t, BELL, features=BELL_CFG, zflags=("stubbing",), timeout=900)
 K("c11_bell_no_early_out_f64", "bellerophon", C11L + ["C05", "C07"], "bellerophon::<f64>, ALL w != 0, q in [-280, 309] (mul arbitrary, error_is_accurate a recorder): no early zero/infinity - the estimate is computed and consulted exactly once", BELL, features=BELL_CFG, zflags=("stubbing",), timeout=900)
 K("c11_bell_no_early_out_f32", "bellerophon", C11L + ["C05", "C07"], "bellerophon::<f32>, ALL w != 0, q in [-30, 309]: no early zero/infinity", BELL, features=BELL_CFG, zflags=("stubbing",), timeout=900)
 K("c11_bell_normalize", "bellerophon", C11L, "normalize: mant<<lz, exp-lz, returns lz; zero untouched", ["bellerophon::normalize"], features=BELL_CFG)
@@ -398,7 +402,7 @@ PROPERTY_META["C19"] = dict(
 
 # tie window, both ends (product as ghost)
 for t, win in (("f64", "[-4, 23]"), ("f32", "[-17, 10]")):
-    K("c11_compute_float_tie_window_" + t, "lemire", C11L, "compute_float::<%s> with the product as ghost, all q in the table range: a tie-shaped product (lo <= 1, truncated bits exactly half, normal range) is rounded to EVEN iff q in %s and UP outside (window ends are literals of the contract, from Lemire's analysis; that real ties have this shape is part of A-LEMIRE)" % (t, win), LEM, features=LEM_CFG, zflags=("stubbing",), timeout=900)
+    K("c11_compute_float_tie_window_" + t, "lemire", C11L, "compute_float::<%s> with the product as ghost, every q INSIDE the tie window %s: a tie-shaped product (lo == 0, truncated bits exactly half, normal range) is rounded to the EVEN neighbour (one-sided on purpose: nothing is demanded outside the window or for lo == 1, where no exact tie exists)" % (t, win), LEM, features=LEM_CFG, zflags=("stubbing",), timeout=900)
 
 # --------------------------------------------------------------------------- arithmetic facts (Verus compute)
 X("verus_threshold_lemmas", "verus", _tables.make_runner(("thresholds",)), ["C07", "C11", "C06", "C04", "C01", "C02", "C09"],
@@ -408,6 +412,7 @@ X("verus_threshold_lemmas", "verus", _tables.make_runner(("thresholds",)), ["C07
 # --------------------------------------------------------------------------- C13 (HeapVec, alloc configurations)
 HV = "heapvec::HeapVec::"
 for nm, b in (("c13_heap_ops_len0_1", "pre-lengths 0 and 1"), ("c13_heap_ops_len3", "pre-length 3")):
-    K(nm, "heapvec", ["C13", "C05", "C12"], "HeapVec try_push / pop / try_extend / try_resize / normalize / is_normalized: contents equal the reference sequence, prefix unchanged, operations never fail (Vec grows), length <= capacity", [HV + "try_push", HV + "pop", HV + "try_extend", HV + "try_resize", HV + "normalize", HV + "is_normalized", HV + "try_from"], strength="bounded", bound=b + ", growth <= 2", features=["alloc", "compact_alloc"], timeout=900)
+    K(nm, "heapvec", ["C13", "C05", "C12", "C04"], "HeapVec try_push / pop / try_extend / try_resize / normalize / is_normalized: contents equal the reference sequence, prefix unchanged, operations never fail (Vec grows), length <= capacity", [HV + "try_push", HV + "pop", HV + "try_extend", HV + "try_resize", HV + "normalize", HV + "is_normalized", HV + "try_from"], strength="bounded", bound=b + ", growth <= 2", features=["alloc", "compact_alloc"], timeout=900)
+K("c12_heap_shl_limbs", "heapvec", ["C12", "C04", "C05", "C13"], "heap back end: new()/try_from give capacity >= 62; shl_limbs(x, n) with len + n <= 62 succeeds, moves limbs up by n and zero-fills", ["bigint::shl_limbs", HV + "new", HV + "try_from", HV + "capacity"], strength="bounded", bound="x of 2 limbs, 1 <= n <= 60", features=["alloc", "compact_alloc"], timeout=900)
 K("c13_heap_eq_cmp", "heapvec", ["C13", "C05"], "HeapVec eq / cmp / partial_cmp / from_u64 on vectors of <= 2 limbs", [HV + "eq", HV + "cmp", HV + "partial_cmp", HV + "from_u64"], strength="bounded", bound="<= 2 limbs", features=["alloc", "compact_alloc"], timeout=900)
 X("c08_unsafe_site_inventory", "static", _ss.unsafe_inventory, ["C08"], "every `unsafe` token in the real sources is listed in inventory/unsafe_sites.json with the obligation that covers it (a mismatch makes the check UNDECIDED: a new unsafe site must not pass silently)", ["crate-wide"], strength="proved")
